@@ -4,6 +4,9 @@ ENTRY = {'coq_dir': 'C01',
  'coq_deps': ['C18', 'C02'],
  'cases': {'quick': 1500, 'thorough': 30000},
  'harness_timeout': 2400,
+ 'quick_streams': [('extra', '{V}/tools/c01_extra_streams.sh {seed} 200')],
+ 'thorough_streams': [('extra', '{V}/tools/c01_extra_streams.sh {seed} 6000')],
+ 'stream_timeout': 2400,
  'consts': ['C01_STATIC_KEY_DOMAIN_BE',
             'C01_STATIC_KEY_DOMAIN_LEN',
             'C01_TLS_SIGNING_PREFIX_BE',
